@@ -49,11 +49,11 @@ struct Opts {
 	unsigned trigger = 0;     // 0 rising, 1 falling, 2 both
 	unsigned mode = 0;        // 0 single file, 1 file per entity, 2 file per partition
 	bool areas = false, names = false;
-	unsigned style = 0;       // 0: set, OnClk, read (classic)  1: set, WaitFor(fraction), read, OnClk  2: set, WaitStable, read, OnClk
+	unsigned style = 0;       // 0: set, OnClk, read (classic)  1: set, WaitFor(1/3), read, WaitFor(1/3), read, OnClk  2: set, WaitStable, read, OnClk
 	bool undefStim = false;
 	bool triNaive = false;    // bidirectional pin: the simulation process releases the pin with 'Z' while the design drives it
 	bool setAtPowerOn = false; // first SETs are issued at power-on (time 0, outside the event loop) instead of after a short wait
-	unsigned extra = 0;       // bit mask of extra parts: 1 wide arithmetic, 2 memory, 4 tristate pin, 8 BLOCK (area with an entity inside), 16 shapes of fixed findings
+	unsigned extra = 0;       // bit mask of extra parts: 1 wide arithmetic, 2 memory, 4 tristate pin, 8 BLOCK (area with an entity inside), 16 shapes of fixed findings, 32 second edge domain (derived clock, same pin, other trigger edge)
 	uint64_t extraSeed = 0;
 };
 
@@ -135,6 +135,46 @@ static void buildExtras(Extra &x, const Opts &o, const Clock &clock)
 		auto p1 = pinOut(b0).setName("x_fb0"); auto p2 = pinOut(q).setName("x_fq");
 		x.outPins.insert(x.outPins.end(), {p1.node(), p2.node()}); x.outWidths.insert(x.outWidths.end(), {0, 0});
 		x.desc += " f45";
+	}
+	if (o.extra & 32) {
+		// a second edge domain on the SAME clock pin: a derived clock that overrides the trigger event (root RISING -> derived FALLING, root
+		// FALLING -> derived RISING, root both edges -> either), as scl::detectSingleEnded / analyzePhaseAlignment do. Registers with enables and
+		// reset values in both domains, data crossing root -> derived -> root and derived -> derived, a memory written (and optionally read
+		// through a register) in the derived domain.
+		auto rootTrig = clock.getClk()->getTriggerEvent();
+		auto derTrig = rootTrig == hlim::Clock::TriggerEvent::RISING ? hlim::Clock::TriggerEvent::FALLING
+			: rootTrig == hlim::Clock::TriggerEvent::FALLING ? hlim::Clock::TriggerEvent::RISING
+			: (rng.chance(1, 2) ? hlim::Clock::TriggerEvent::RISING : hlim::Clock::TriggerEvent::FALLING);
+		Clock der = clock.deriveClock(ClockConfig{.triggerEvent = derTrig});
+		size_t w = 2 + rng.below(6);
+		auto rv = [&]() { return ConstUInt(rng.below(size_t(1) << w), BitWidth(w)); };
+		UInt a = pinIn(BitWidth(w)).setName("x_ea"); Bit enR = pinIn().setName("x_eenr"); Bit enD = pinIn().setName("x_eend");
+		addIn(x, a); addIn(x, enR); addIn(x, enD);
+		UInt r1, r2, r2b, r3, mrd;
+		bool enOnRoot = rng.chance(1, 2), enOnDer = rng.chance(2, 3), withMem = rng.chance(1, 2), memSync = rng.chance(1, 2);
+		{ std::optional<EnableScope> es; if (enOnRoot) es.emplace(enR); r1 = reg(a, rv()); }                       // root domain
+		{
+			ClockScope ds(der);
+			{ std::optional<EnableScope> es; if (enOnDer) es.emplace(enD); r2 = reg(r1 ^ a, rv()); }               // root -> derived
+			r2b = reg(r2 + r1, rv());                                                                               // derived -> derived (and root -> derived)
+			if (withMem) {
+				Memory<UInt> mem(4, UInt(BitWidth(w)));
+				if (!memSync) mem.setType(MemType::DONT_CARE, 0);
+				sim::DefaultBitVectorState st; st.resize(4 * w);
+				for (size_t i = 0; i < st.size(); i++) { st.set(sim::DefaultConfig::DEFINED, i, true); st.set(sim::DefaultConfig::VALUE, i, rng.chance(1, 2)); }
+				mem.fillPowerOnState(st);
+				UInt wa = pinIn(2_b).setName("x_ewa"); UInt ra = pinIn(2_b).setName("x_era");
+				addIn(x, wa); addIn(x, ra);
+				IF (enD) mem[wa] = r1;                                                                              // write port clocked by the derived clock
+				mrd = mem[ra];
+				if (memSync) mrd = reg(mrd, {.allowRetimingBackward = true});
+			}
+		}
+		r3 = reg(r2b | r2, rv());                                                                                   // derived -> root
+		auto p1 = pinOut(r1).setName("x_er1"); auto p2 = pinOut(r2).setName("x_er2"); auto p3 = pinOut(r2b).setName("x_er2b"); auto p4 = pinOut(r3).setName("x_er3");
+		x.outPins.insert(x.outPins.end(), {p1.node(), p2.node(), p3.node(), p4.node()}); x.outWidths.insert(x.outWidths.end(), {w, w, w, w});
+		if (withMem) { auto p5 = pinOut(mrd).setName("x_emrd"); x.outPins.push_back(p5.node()); x.outWidths.push_back(w); }
+		x.desc += std::string(" edges=") + (derTrig == hlim::Clock::TriggerEvent::RISING ? "R" : "F") + std::to_string(w) + (enOnRoot ? "e" : "") + (enOnDer ? "E" : "") + (withMem ? (memSync ? "ms" : "ma") : "");
 	}
 	if (o.extra & 4) { // tristate pin
 		size_t w = rng.below(3) == 0 ? 0 : 1 + rng.below(6);
@@ -231,6 +271,12 @@ static void dumpProcesses(std::ostream &o, vhdl::BasicBlock *bb, const std::stri
 			dumpNode(o, n);
 			if (inProc)
 				for (size_t k = 0; k < n->getNumInputPorts(); k++) if (n->getDriver(k).node) work.push_back(n->getDriver(k).node);
+			if (auto *r = dynamic_cast<hlim::Node_Register*>(n); r && inProc && r->getClocks()[0]) {
+				auto *c = r->getClocks()[0];
+				o << "xregclk " << r->getId() << " trig=" << (c->getTriggerEvent() == hlim::Clock::TriggerEvent::RISING ? 'R' : c->getTriggerEvent() == hlim::Clock::TriggerEvent::FALLING ? 'F' : 'B')
+				  << " rtype=" << (c->getRegAttribs().resetType == hlim::RegisterAttributes::ResetType::NONE ? "none" : c->getRegAttribs().resetType == hlim::RegisterAttributes::ResetType::SYNCHRONOUS ? "sync" : "async")
+				  << " high=" << (c->getRegAttribs().resetActive == hlim::RegisterAttributes::Active::HIGH) << " hasrv=" << (r->getNonSignalDriver(hlim::Node_Register::RESET_VALUE).node != nullptr) << '\n';
+			}
 			if (auto *r = dynamic_cast<hlim::Node_Register*>(n)) if (auto rv = r->getNonSignalDriver(hlim::Node_Register::RESET_VALUE); rv.node) { o << "xresetval " << r->getId() << ' ' << rv.node->getId() << '\n'; work.push_back(rv.node); }
 		}
 		o << "xorder"; for (auto *n : proc.get()->*PrAccess::nodes()) o << ' ' << n->getId(); o << '\n';
@@ -290,14 +336,14 @@ static bool runOne(uint64_t k, const vh::Recipe &recipe, const Opts &o, uint64_t
 		DesignScope design;
 		vh::Decoration deco; deco.seed = decoSeed; deco.areas = o.areas; deco.names = o.names;
 		vh::Built b = vh::build(recipe, deco);
-		Extra x;
-		if (o.extra) buildExtras(x, o, *b.clock);
-		// clock / reset configuration under test
+		// clock / reset configuration under test (before the extras: a derived clock copies its parent's attributes when it is created)
 		auto *clk = b.clock->getClk();
 		auto &attr = clk->getRegAttribs();
 		attr.resetType = o.resetKind == 0 ? hlim::RegisterAttributes::ResetType::NONE : o.resetKind == 1 ? hlim::RegisterAttributes::ResetType::SYNCHRONOUS : hlim::RegisterAttributes::ResetType::ASYNCHRONOUS;
 		attr.resetActive = o.resetLow ? hlim::RegisterAttributes::Active::LOW : hlim::RegisterAttributes::Active::HIGH;
 		clk->setTriggerEvent(o.trigger == 0 ? hlim::Clock::TriggerEvent::RISING : o.trigger == 1 ? hlim::Clock::TriggerEvent::FALLING : hlim::Clock::TriggerEvent::RISING_AND_FALLING);
+		Extra x;
+		if (o.extra) buildExtras(x, o, *b.clock);
 		if (o.mode == 2) { // every second entity below the root starts a partition
 			size_t i = 0;
 			for (auto &g : design.getCircuit().getRootNodeGroup()->getChildren()) if (g->getGroupType() == hlim::NodeGroupType::ENTITY && (i++ % 2 == 0)) g->setPartition(true);
@@ -353,6 +399,11 @@ static bool runOne(uint64_t k, const vh::Recipe &recipe, const Opts &o, uint64_t
 				if (o.style == 1) co_await WaitFor(Seconds{1, 3} / clock.absoluteFrequency());
 				if (o.style == 2) co_await WaitStable();
 				if (o.style != 0) {
+					for (auto *p : outPins) if (p->getDriver(0).node) { sim.simProcGetValueOfOutput(p->getDriver(0)); reads++; }
+					scanUndefined();
+				}
+				if (o.style == 1) { // second sample point after the opposite clock edge (observes registers of the other edge domain half a period early)
+					co_await WaitFor(Seconds{1, 3} / clock.absoluteFrequency());
 					for (auto *p : outPins) if (p->getDriver(0).node) { sim.simProcGetValueOfOutput(p->getDriver(0)); reads++; }
 					scanUndefined();
 				}
@@ -421,7 +472,7 @@ int main(int argc, char **argv)
 		o.style = (unsigned) rng.below(3);
 		o.undefStim = (flags & 32) && rng.chance(1, 2);
 		o.setAtPowerOn = (flags & 64) && rng.chance(1, 2);
-		if (flags & 16) { if (rng.chance(1, 2)) o.extra = (unsigned) rng.below(32); }
+		if (flags & 16) { if (rng.chance(1, 2)) o.extra = (unsigned) rng.below(64); }
 		o.triNaive = (flags & 128) && rng.chance(1, 2);
 		if ((o.extra & 4) && o.triNaive) o.setAtPowerOn = false; // at most one of the two recorder findings per case
 		o.extraSeed = rng.next();
